@@ -119,6 +119,9 @@ func NewHandler(
 	for _, option := range options {
 		option(handlerOptions)
 	}
+	if handler := verifHandler(pluginName); handler != nil {
+		return handler, nil
+	}
 
 	// Initialize binary plugin handler when path is specified with optional args. Return
 	// on error as something is wrong with the supplied pluginPath option.
